@@ -19,6 +19,8 @@ type c18Gen struct {
 	tier string
 	cur  proto.Message // generator's copy of the resource, evolves with the model
 	root string
+	// set by selector when the filter it spelled selects NO entry of the list (render resets and reads it)
+	nothing bool
 }
 
 func isEnumCode(d protoreflect.MessageDescriptor) bool {
@@ -118,6 +120,44 @@ func (g *c18Gen) selector(l protoreflect.List, k int, isExt bool) (sel string, e
 		}
 		return fmt.Sprintf("[%d]", k), true
 	case x < 88:
+		if g.r.p(0.5) {
+			// where(repeatedChild = literal), the literal being one of SEVERAL values the child has in this
+			// entry, and no entry having that value alone: `=` between collections of different sizes is
+			// not true, so the filter selects nothing - whatever the operation, nothing may change
+			var rc []protoreflect.FieldDescriptor
+			for _, fd := range sortedMsgFields(el) {
+				if fd.IsList() && el.Get(fd).List().Len() >= 2 {
+					if _, ok := primLiteral(el.Get(fd).List().Get(0).Message()); ok {
+						rc = append(rc, fd)
+					}
+				}
+			}
+			if len(rc) > 0 {
+				fd := pick(g.r, rc)
+				vals := el.Get(fd).List()
+				v := vals.Get(g.r.n(vals.Len())).Message()
+				if lit, ok := primLiteral(v); ok {
+					none := true
+					for i := 0; i < n; i++ {
+						ol := l.Get(i).Message().Get(fd).List()
+						if ol.Len() < 2 {
+							none = none && !(ol.Len() == 1 && primEqual(ol.Get(0).Message(), v))
+							continue
+						}
+						// an entry whose values are all alike might compare equal item by item in some reading: avoid
+						all := true
+						for j := 0; j < ol.Len(); j++ {
+							all = all && primEqual(ol.Get(j).Message(), v)
+						}
+						none = none && !all
+					}
+					if none {
+						g.nothing = true
+						return fmt.Sprintf(".where(%s = %s)", fhirName(fd), lit), false
+					}
+				}
+			}
+		}
 		// where(child = literal)
 		if lit, ok := primLiteral(el); ok {
 			cnt := 0
@@ -165,11 +205,14 @@ type rendered struct {
 	needVar bool // uses %iN
 	needIdf bool // uses idf()
 	loc     string // the location the path was spelled for (empty: the path denotes a whole list)
+	nothing bool   // a filter of the path selects no entry: the path denotes nothing
 }
 
 // render spells the location l of g.cur. whole: leave the last list step unselected (insert).
-func (g *c18Gen) render(l loc, whole bool) rendered {
-	out := rendered{exact: true}
+func (g *c18Gen) render(l loc, whole bool) (out rendered) {
+	out = rendered{exact: true}
+	g.nothing = false
+	defer func() { out.nothing, g.nothing = g.nothing, false }()
 	root := g.cur.ProtoReflect()
 	s := string(root.Descriptor().Name())
 	if g.r.p(0.06) {
@@ -422,6 +465,10 @@ func (g *c18Gen) decorate(op *C18Op, rd rendered) (expectOK bool) {
 	if rd.exact && rd.loc != "" && op.Path == rd.path {
 		// the path was spelled for one location of the resource as it is now: that is what it denotes
 		op.Want, op.State = rd.loc, digest(string(msgBytes(g.cur)))
+	}
+	if rd.nothing && op.Path == rd.path {
+		// ... or for no location at all
+		op.Want, op.State = "-", digest(string(msgBytes(g.cur)))
 	}
 	if rd.needIdf {
 		// idf() answers its input; a share of them also evaluates another expression on the way
